@@ -964,6 +964,10 @@ def check_property(pid, tier, res=None, vres=None, quiet=False):
             'result_cache_hit': res['cache_hit'],
             'whole_file_verified_functions': res['verified'], 'whole_file_failed_functions': res['nerrors'],
             'axioms_used': axs,
+            'detail_clauses_among_the_obligations': sorted('%s#%s' % k for k in mine if (k[1] or '').endswith('~')),
+            'detail_clauses_note': 'a label ending in ~ pins a detail the property statements do not fix (e.g. which error variant); discharged here; if one fails the property is undecided, not violated (DESIGN.md 2.2)',
+            'functions_in_the_source_without_a_contract_entry_or_baseline': sorted(newf),
+            'contract_entries_whose_function_is_missing': sorted({le['fn'] for u in res['units'] for le in u['model'].info.get('lost_entries', [])}),
             'known_findings_excluded_from_the_claim': [{'obligation': oid, 'what': what} for oid, what in sorted(set(known_hits))],
             'vacuity_probe': vac_note or 'not run in this tier',
             'replay_probe': ({'ran': True, 'tests': probe.get('tests'), 'findings_for_this_property': pf, 'wall_s': probe.get('wall_s'), 'cache_hit': probe.get('cache_hit'), 'error': probe.get('error')}
